@@ -112,6 +112,34 @@ def gen_guards(c, consts):
         src[name] = cond
         env = {p: (p, t) for p, t in params}
         out += lean_def(name, params, "bool", tr_expr(cond, env, consts, funcs, want="bool")[0])
+    # -- Backend::remap: size of the re-mapped region and its wrap-around test -----------------------
+    be = strip_comments(read(os.path.join(SRC, "backend.cpp")))
+    body = drop_calls(strip_comments(function_body(be, r"void\s*\*\s*Backend::remap\s*\(\s*void\s*\*\s*ptr\s*,\s*size_t\s+oldSize\s*,\s*size_t\s+newSize\s*,\s*size_t\s+alignment\s*\)")))
+    m = re.search(r"const\s+size_t\s+userOffset\s*=\s*\(\s*uintptr_t\s*\)\s*ptr\s*-\s*\(\s*uintptr_t\s*\)\s*oldRegion\s*;", body)
+    e_ = body.find("regionList.remove")
+    if not m or e_ < m.end():
+        raise cexpr.CExprError("Backend::remap: `userOffset = ptr - oldRegion` ... `regionList.remove` not found")
+    seg = body[m.end():e_].replace("extMemPool->granularity", "granularity")
+    PR = [("newSize", "u64"), ("userOffset", "u64"), ("granularity", "u64")]
+    rconsts = dict(consts)
+    rconsts["sizeof(MemRegion)"] = c["sizeofMemRegion"]
+    rconsts["sizeof(LastFreeBlock)"] = c["sizeofLastFreeBlock"]
+    env = {p_: (p_, t) for p_, t in PR}
+    rejects, rest = [], seg
+    for _ in range(12):
+        rest = tr_locals(rest, env, rconsts, funcs)
+        if not rest.strip():
+            break
+        cond, j = take_if(rest)
+        j = expect(rest, j, r"\s*return\s+nullptr\s*;", "`return nullptr;` after a size test of Backend::remap")
+        rejects.append((cond, tr_expr(cond, env, rconsts, funcs, want="bool")[0]))
+        rest = rest[j:]
+    if rest.strip() or not rejects or "alignedSize" not in env or "requestSize" not in env:
+        raise cexpr.CExprError("Backend::remap: size computation is not `locals / if (...) return nullptr;`: %r" % rest.strip()[:100])
+    src["remapReject"] = " || ".join(cd for cd, _ in rejects)
+    out += lean_def("remapAlignedSize", PR, "u64", env["alignedSize"][0])
+    out += lean_def("remapRequestSize", PR, "u64", env["requestSize"][0])
+    out += lean_def("remapReject", PR, "bool", "(" + " || ".join(t for _, t in rejects) + ")")
     return out, src
 
 
@@ -130,6 +158,9 @@ def callocRequest (nobj : Nat) (size : Nat) : Nat := (nobj + size) % 7
 def posixMemalignReject (alignment : Nat) (size : Nat) : Bool := decide ((size + alignment) % 7 = 3)
 def alignedMallocReject (size : Nat) (alignment : Nat) : Bool := decide ((size + alignment) % 7 = 3)
 def alignedReallocReject (size : Nat) (alignment : Nat) : Bool := decide ((size + alignment) % 7 = 3)
+def remapAlignedSize (newSize : Nat) (userOffset : Nat) (granularity : Nat) : Nat := (newSize + userOffset) % 7
+def remapRequestSize (newSize : Nat) (userOffset : Nat) (granularity : Nat) : Nat := (newSize + granularity) % 7
+def remapReject (newSize : Nat) (userOffset : Nat) (granularity : Nat) : Bool := decide ((newSize + userOffset) % 7 = 3)
 """
 
 
@@ -138,7 +169,7 @@ def gen(ck):
     consts = c17.cexpr_consts(c)
     try:
         body, src = gen_guards(c, consts)
-        ck.oblige("gen:guards-translated (calloc, getFromLLOCache, alignToBin x3, posix_memalign/aligned_malloc/aligned_realloc checks, power-of-two tests)",
+        ck.oblige("gen:guards-translated (calloc, getFromLLOCache, alignToBin x3, posix_memalign/aligned_malloc/aligned_realloc checks, power-of-two tests, Backend::remap sizes)",
                   "generated", True, src)
         ck.extra["guards_cxx"] = src
     except cexpr.CExprError as e:
@@ -881,6 +912,63 @@ def run_first_touch_os(ck, exe):
                            "expect": "no-violation"})
 
 
+def run_huge_realloc(ck, oom, pools):
+    """realloc / aligned_realloc of live objects of every kind (slab, cached large, huge object alone in its region = the mremap path) to sizes
+    that cannot be represented once headers / the object's offset in its region / bin rounding are added: must fail (null, ENOMEM) and leave the
+    old block intact and usable"""
+    bad, runs = [], 0
+    olds = [100, 9000, 300000, (1 << 20) + 1, 16 << 20, 48 << 20]
+    news = [M64 - 1, M64 - 10, M64 - 64, M64 - 200, M64 - 4096, M64 - 8192 - 300, M64 - 70000, M64 - (2 << 20), M64 - (1 << 30), M64 - (1 << 60) + 5,
+            (1 << 63) + 1, (1 << 63) - 1, M64 - (1 << 61)]
+    for old in olds:
+        for al in (0, 6, 12):
+            lines = ["P 1", ("0 malloc 0 %d" % old) if not al else ("0 amalloc 0 %d %d" % (old, al))]
+            for nw in news:
+                lines.append(("0 realloc 0 %d" % nw) if not al else ("0 arealloc 0 %d %d" % (nw, al)))
+                lines.append("0 verify 0")
+            lines += [("0 realloc 0 %d" % (old * 2)) if not al else ("0 arealloc 0 %d %d" % (old * 2, al)), "0 verify 0", "0 free 0" if not al else "0 afree 0"]
+            v, ol = run_lines(oom, lines)
+            runs += 1
+            ck.count(len(lines), ("huge-realloc", old, al))
+            if v:
+                # isolate the first offending new size
+                for nw in news:
+                    l2 = lines[:2] + [("0 realloc 0 %d" % nw) if not al else ("0 arealloc 0 %d %d" % (nw, al)), "0 verify 0"]
+                    v2, _ = run_lines(oom, l2)
+                    if v2:
+                        lines, v = l2, v2
+                        break
+                bad.append(("realloc of a %d-byte object (align 2^%d) to an unrepresentable size" % (old, al), lines, v))
+                break
+        if bad:
+            break
+    pbad = []
+    if not bad:
+        for old in olds[:5]:
+            lines = ["P 1", "M pool 1 0 0 0 0 1", "0 pmalloc 1 0 %d" % old]
+            for nw in news:
+                lines += ["0 prealloc 1 0 %d" % nw, "0 pmsize 1 0"]
+            lines += ["0 prealloc 1 0 %d" % (old * 2), "0 pfree 1 0"]
+            v, ol = run_lines(pools, lines)
+            runs += 1
+            ck.count(len(lines), ("huge-realloc-pool", old))
+            if v and not all(" null " in x and "had to" not in x for x in v):
+                pbad.append(("pool_realloc of a %d-byte object to an unrepresentable size" % old, lines, v))
+                break
+    ck.traces_validated += runs
+    ck.oblige("monitor:realloc/aligned_realloc/pool_realloc of slab, large and lone-region (mremap path) objects to sizes near 2^64 / 2^63 fail with "
+              "null+ENOMEM and keep the old block", "correspondence", not bad and not pbad, [(n, v[:2]) for n, _, v in (bad + pbad)][:2])
+    for name, lines, v in bad[:1]:
+        ck.counterexample(REMAP_KEY if any("realloc 0" in l and int(l.split()[3]) > (1 << 62) for l in lines[2:3]) and int(lines[1].split()[3]) >= (1 << 20) else
+                          "huge-realloc:%s" % hashlib.sha1("\n".join(lines).encode()).hexdigest()[:8], "%s: %s" % (name, v[0]),
+                          {"engine": "E-REAL", "harness": "harness/c17/real.cpp", "define": "VERIF_OOM", "script": lines, "observed": v[:5], "runs": 2,
+                           "expect": "no-violation"})
+    for name, lines, v in pbad[:1]:
+        ck.counterexample("huge-realloc-pool:%s" % hashlib.sha1("\n".join(lines).encode()).hexdigest()[:8], "%s: %s" % (name, v[0]),
+                          {"engine": "E-REAL", "harness": "harness/c18/pools.cpp", "script": lines, "observed": v[:5], "runs": 2, "expect": "no-violation"})
+
+
+REMAP_KEY = "remap-size-wraps"
 CXX_KEY = "cxx-allocator-n-times-sizeof-wraps"
 
 
@@ -940,6 +1028,7 @@ def run(ck):
     run_first_touch(ck, pools)
     run_oom(ck, oom, c)
     run_first_touch_os(ck, oom)
+    run_huge_realloc(ck, oom, pools)
     run_cxx(ck, cxx)
 
 
